@@ -10,7 +10,8 @@ EXPLANATION = (
     'matcher is proven live on every run by the one guarded cast inside datacake-rpc), and the repair client decodes the peer\'s state '
     'bytes, which derive from the RPC reply, through a VALIDATING entry point whose failure becomes an error status; V2 the type (const '
     'source count included) at which the keyspace actor serialises equals the type at which the client decodes; V3 the sender converts '
-    'a serialisation failure into an error reply (no unwrap); V4 all of the state travels: the derived serialisers visit every field of '
+    'a serialisation failure into an error reply (no unwrap); V5 every Ok reply of the state handler carries bytes serialised by the keyspace '
+    'actor during that very request (no cached or stored snapshot); V4 all of the state travels: the derived serialisers visit every field of '
     'OrSWotSet and NodeVersions and the archived types have as many fields as the originals (no skipped field). '
     'NOT decided: observational equality for all state sizes (rkyv round trip); alignment for arbitrary payload offsets.')
 ASSUMPTIONS = ['rkyv/bytecheck validation is sound']
@@ -103,6 +104,31 @@ def check(ctx):
             good = re_.inspected and bool(re_.err) and not unw
             ctx.ob('C19.V3', 'GetState|error-reply', good, site(h, t['cs']),
                    'a failed serialisation is answered with an error status' if good else 'the handler unwraps / ignores a failed serialisation')
+    # ---- V5: the state handed out is serialised in THIS invocation, on every path to an Ok reply
+    for h in hs:
+        hflow = Flow(h)
+        hc = list(h.calls())
+        snd = [(b, t) for b, t in hc if cname(t) == 'puppet::ActorMailbox::send' and 'Serialize' in ' '.join(t.get('gargs') or [])]
+        oks = ok_return_blocks(h)
+        if not snd or not oks:
+            continue
+        re_ = ResultEdges(h, hflow, snd[0][0])
+        every = all(re_.ok_dominates(ob) for ob in oks)
+        # the reply's `set` field comes from that send
+        aw = awaited_output_local(h, hflow, snd[0][0])
+        fld_ok = False
+        for _b, _j, s in h.assigns():
+            rv = s['rv']
+            if rv['k'] == 'aggregate' and rv.get('agg') == 'adt' and rv['adt'].endswith('KeyspaceOrSwotSet'):
+                fl = dict(zip(rv['fields'], rv['ops']))
+                src = hflow.backward([op_local(fl['set'])]) if 'set' in fl else set()
+                others = [cname(t) for _bb, t in hc if t['dest']['l'] in src and cname(t) and
+                          re.search(r'(HashMap|BTreeMap)::(get|remove|get_mut)$|::(lock|read|write)$', cname(t))]
+                fld_ok = aw is not None and aw in src and not others
+        ctx.ob('C19.V5', 'GetState|fresh-serialisation', every and fld_ok, site(h, snd[0][1]['cs']),
+               'every Ok reply carries bytes serialised by the keyspace actor during this request' if every and fld_ok else
+               'an Ok reply can carry state bytes that were not serialised during this request (cached / stored bytes): the peer does not receive the '
+               'sender\'s state at the moment it answered (e.g. a purge does not move the change stamp a cache would be keyed on)')
     if not hs:
         ctx.bad('C19.V3', 'GetState|handler', '', 'GetState handler not found')
     # ---- V4 ----------------------------------------------------------------------------
